@@ -279,6 +279,8 @@ def run_impl(spec, chunks, progs, peer=DEFAULT_PEER, structured=None):
                     if structured is not None:
                         structured.append({"end": "error", "error": type(e).__name__, "phase": "drain"})
                     break
+                rec_req["drained_left"] = len(parser.unreader.buf.getvalue()) + it.remaining()
+                rec_req["trailers"] = list(req.trailers)
             rb = RecordingBody(req.body, req, parser, it)
             req.body = rb
             prev = (req, rb)
